@@ -262,6 +262,7 @@ func cmdCheck(args []string) int {
 		cfg.MaxSliceLen = o.IntOpt("slicelen", cfg.MaxSliceLen)
 		cfg.MaxPermute = o.IntOpt("permute", cfg.MaxPermute)
 		cfg.MaxBigBytes = o.IntOpt("bigbytes", 4)
+		cfg.BigBlob = o.Opts["bigblob"] == "1"
 		cfg.SolverTimeoutMs = o.IntOpt("timeout_ms", cfg.SolverTimeoutMs)
 		cfg.MaxBlockVisits = o.IntOpt("blockvisits", cfg.MaxBlockVisits)
 		if o.Opts["panics"] == "ok" {
